@@ -237,11 +237,11 @@ VERUS = {
     'grow': dict(props=['C13', 'C08', 'C12'], tier='quick',
                  desc='reserve_rehash_inner, RawTable::reserve, RawTable::try_reserve and RawTableInner::with_capacity on extracted text against the contracts of rehash_in_place, resize_inner and fallible_with_capacity (the hint::unreachable_unchecked() calls are proved dead): success gives room and loses nothing, tombstones are reclaimed in place exactly when len+additional <= capacity/2, otherwise growth to at least max(len+additional, capacity+1), errors only in fallible mode with nothing changed, unrepresentable requests reported; plus the churn lemma L6: every growth step the contract allows, with at most m live elements and additional = 1, lands on at most max(16, 5(m+1)) buckets, so along any insert/remove history buckets <= max(initial, that bound)',
                  paired={}),
-    'rehash': dict(props=['C13', 'C01', 'C06', 'C03'], tier='quick',
-                   desc='rehash_in_place (the path on which no callback unwinds; the scope guard closure is unit guard) and is_in_same_group on extracted text, together with the functions they call (prepare_rehash_in_place, find_insert_slot, set_ctrl, set_ctrl_hash, replace_ctrl_hash, ...), for every table size and both widths, element storage as a ghost sequence of element identities, the hasher an arbitrary function of the element: afterwards no tombstone is left, growth_left is the full slack, every FULL bucket carries the tag of its element and is reachable by a probe for its hash (every window probed before it is entirely FULL), and the multiset of elements is unchanged (none lost, none duplicated); both loops terminate (the inner one because every swap turns a DELETED byte FULL); every bucket access in bounds, every raw element copy/swap between two different buckets',
+    'rehash': dict(props=['C13', 'C01', 'C06', 'C03', 'C05'], tier='quick',
+                   desc='rehash_in_place (the path on which no callback unwinds; the scope guard closure is unit guard) and is_in_same_group on extracted text, together with the functions they call (prepare_rehash_in_place, find_insert_slot, set_ctrl, set_ctrl_hash, replace_ctrl_hash, ...), for every table size and both widths, element storage as a ghost sequence of element identities, the hasher ARBITRARY (it may answer anything, differently on every call; only the placement clause assumes it is a function of the element): afterwards no tombstone is left, growth_left is the full slack, every FULL bucket carries the tag of its element and is reachable by a probe for its hash (every window probed before it is entirely FULL; this clause for lawful hashers), and the multiset of elements is unchanged (none lost, none duplicated); both loops terminate (the inner one because every swap turns a DELETED byte FULL); every bucket access in bounds, every raw element copy/swap between two different buckets',
                    paired={}),
-    'resize': dict(props=['C08', 'C13', 'C01', 'C06', 'C03'], tier='quick',
-                   desc='resize_inner on extracted text together with the functions it calls on the new table (prepare_insert_slot, find_insert_slot, set_ctrl_hash, ...), for every pair of table sizes and both widths, element storage as ghost sequences of element identities, the hasher an arbitrary function of the element, against the contracts of prepare_resize (a fresh entirely EMPTY table with the requested capacity, or an error) and of the FullBucketsIndices iterator (the indices of the FULL buckets, ascending, each once): on success the table has room for the request, no tombstone, growth_left = capacity - items, every FULL bucket carries the tag of its element and is reachable by a probe for its hash, and the multiset of elements is unchanged; on error nothing changed and the caller asked for fallible behaviour; find_insert_slot is only ever called on a table that still has an EMPTY bucket (counting argument from items <= capacity < buckets)',
+    'resize': dict(props=['C08', 'C13', 'C01', 'C06', 'C03', 'C05'], tier='quick',
+                   desc='resize_inner on extracted text together with the functions it calls on the new table (prepare_insert_slot, find_insert_slot, set_ctrl_hash, ...), for every pair of table sizes and both widths, element storage as ghost sequences of element identities, the hasher arbitrary (lawful only for the placement clause), against the contracts of prepare_resize (a fresh entirely EMPTY table with the requested capacity, or an error) and of the FullBucketsIndices iterator (the indices of the FULL buckets, ascending, each once): on success the table has room for the request, no tombstone, growth_left = capacity - items, every FULL bucket carries the tag of its element and is reachable by a probe for its hash, and the multiset of elements is unchanged; on error nothing changed and the caller asked for fallible behaviour; find_insert_slot is only ever called on a table that still has an EMPTY bucket (counting argument from items <= capacity < buckets)',
                    paired={}),
     'alloc': dict(props=['C12', 'C08', 'C02'], tier='quick',
                   desc='the allocation path on extracted text: new_uninitialized (against the contracts of calculate_layout_for and of the allocator call: the control pointer block + ctrl_offset stays inside the block, buckets + WIDTH control bytes follow it, bucket_mask = buckets - 1 < 2^62, growth_left = capacity), fallible_with_capacity (capacity 0 gives the unallocated singleton, otherwise a table with the minimal admissible bucket count, every control byte EMPTY, nothing stored, whole capacity available) and prepare_resize (the same, which is the contract unit resize assumes); every error return happens in fallible mode only',
